@@ -941,6 +941,12 @@ class Evaluator(Run):
     def special_forall_val(self, node, frame):
         return self._quant(node, frame, True, T.Opaque("val"))
 
+    def special_forall_bytes(self, node, frame):
+        return self._quant(node, frame, True, T.Bytes)
+
+    def special_forall_chunks(self, node, frame):
+        return self._quant(node, frame, True, T.Seq(T.Bytes))
+
     def special_forall_strset(self, node, frame):
         return self._quant(node, frame, True, T.VSet(T.Str))
 
